@@ -36,6 +36,29 @@ type ruModel struct {
 	evals                                []*kit.Func
 	ranges                               map[*kit.Func]*ruRanges
 	chain                                *c14Chain // schedule chain, built on demand (no package-level state: runs may be concurrent)
+	// set while a flow run evaluates helpers inline (kit.Std): res maps a
+	// helper's parameter to the argument expression it is bound to, cur is the
+	// function whose body is being evaluated
+	res func(ast.Expr) ast.Expr
+	cur func() *kit.Func
+}
+
+// follow installs the inline-evaluation view of st for the duration of a run;
+// the returned function removes it.
+func (m *ruModel) follow(st *kit.Std) func() {
+	m.res, m.cur = st.Resolve, st.Cur
+	return func() { m.res, m.cur = nil, nil }
+}
+
+// scopes: the functions whose range variables can be in play: f and, during
+// an inline evaluation, the helper being evaluated.
+func (m *ruModel) scopes(f *kit.Func) []*kit.Func {
+	if m.cur != nil {
+		if c := m.cur(); c != nil && c != f {
+			return []*kit.Func{f, c}
+		}
+	}
+	return []*kit.Func{f}
 }
 
 const ruClientPkg = "client"
@@ -270,16 +293,35 @@ func (m *ruModel) rangesOf(f *kit.Func) *ruRanges {
 func (m *ruModel) isElemOf(f *kit.Func, e ast.Expr, elem types.Type) bool {
 	info := f.Info()
 	e = ast.Unparen(e)
-	rg := m.rangesOf(f)
+	if m.res != nil {
+		e = ast.Unparen(m.res(e))
+	}
+	// &elem / *elem around the element
+	for {
+		if u, ok := e.(*ast.UnaryExpr); ok && u.Op == token.AND {
+			e = ast.Unparen(u.X)
+			continue
+		}
+		if st, ok := e.(*ast.StarExpr); ok {
+			e = ast.Unparen(st.X)
+			if m.res != nil {
+				e = ast.Unparen(m.res(e))
+			}
+			continue
+		}
+		break
+	}
 	switch x := e.(type) {
 	case *ast.Ident:
 		o := kit.ObjOf(info, x)
 		if o == nil {
 			return false
 		}
-		if rs := rg.val[o]; rs != nil {
-			el := ruSliceElem(info.TypeOf(rs.X))
-			return el != nil && types.Identical(el, elem)
+		for _, sc := range m.scopes(f) {
+			if rs := m.rangesOf(sc).val[o]; rs != nil {
+				el := ruSliceElem(info.TypeOf(rs.X))
+				return el != nil && types.Identical(el, elem)
+			}
 		}
 		for _, p := range f.Params() {
 			if p == o {
@@ -303,8 +345,10 @@ func (m *ruModel) isElemOf(f *kit.Func, e ast.Expr, elem types.Type) bool {
 		if o == nil {
 			return false
 		}
-		if rs := rg.key[o]; rs != nil && kit.SameExpr(info, rs.X, x.X) {
-			return true
+		for _, sc := range m.scopes(f) {
+			if rs := m.rangesOf(sc).key[o]; rs != nil && kit.SameExpr(info, rs.X, x.X) {
+				return true
+			}
 		}
 	}
 	return false
@@ -313,8 +357,30 @@ func (m *ruModel) isElemOf(f *kit.Func, e ast.Expr, elem types.Type) bool {
 // elemRange returns the range statement whose current element e denotes.
 func (m *ruModel) elemRange(f *kit.Func, e ast.Expr) *ast.RangeStmt {
 	info := f.Info()
+	e = ast.Unparen(e)
+	if m.res != nil {
+		e = ast.Unparen(m.res(e))
+	}
+	if u, ok := e.(*ast.UnaryExpr); ok && u.Op == token.AND {
+		e = ast.Unparen(u.X)
+	}
 	rg := m.rangesOf(f)
-	switch x := ast.Unparen(e).(type) {
+	for _, sc := range m.scopes(f) {
+		if sc == f {
+			continue
+		}
+		switch x := e.(type) {
+		case *ast.Ident:
+			if rs := m.rangesOf(sc).val[kit.ObjOf(info, x)]; rs != nil {
+				return rs
+			}
+		case *ast.IndexExpr:
+			if rs := m.rangesOf(sc).key[kit.ObjOf(info, x.Index)]; rs != nil {
+				return rs
+			}
+		}
+	}
+	switch x := e.(type) {
 	case *ast.Ident:
 		if o := kit.ObjOf(info, x); o != nil {
 			if rs := rg.val[o]; rs != nil {
